@@ -1028,23 +1028,33 @@ def _classify_fb(sp):
     instance?  That is the recorded finding; anything else is a different
     violation and gets a different fingerprint."""
     try:
-        n = 25
+        # several horizons: on some instances both reference iterations
+        # coincide for the first dozens of steps (saturated dual variable)
         x0 = elem_flat(sp.x0).astype(float)
-        x = sp.x0.copy()
-        with seams.allocator('zero'):
-            sp.run(x, n)
-        got = elem_flat(x).astype(float)
-        deg = _fb_reference(sp, x0, n, extrapolate=False)
-        ext = _fb_reference(sp, x0, n, extrapolate=True)
-        if deg is None:
-            return 'unclassified'
-        sc = 1.0 + np.max(np.abs(deg))
-        d_deg = np.max(np.abs(got - deg)) / sc
-        d_ext = np.max(np.abs(got - ext)) / sc
-        if d_deg <= 1e-8 and d_ext > 1e-6:
+        deg_ok = ext_ok = True
+        deg_off = ext_off = False
+        for n in (25, 200, 1000):
+            x = sp.x0.copy()
+            with seams.allocator('zero'):
+                sp.run(x, n)
+            got = elem_flat(x).astype(float)
+            deg = _fb_reference(sp, x0, n, extrapolate=False)
+            ext = _fb_reference(sp, x0, n, extrapolate=True)
+            if deg is None:
+                return 'unclassified'
+            sc = 1.0 + np.max(np.abs(deg))
+            d_deg = np.max(np.abs(got - deg)) / sc
+            d_ext = np.max(np.abs(got - ext)) / sc
+            deg_ok = deg_ok and d_deg <= 1e-8
+            ext_ok = ext_ok and d_ext <= 1e-8
+            deg_off = deg_off or d_deg > 1e-6
+            ext_off = ext_off or d_ext > 1e-6
+        if deg_ok and ext_off:
             return 'matches-unextrapolated-iteration'
-        if d_ext <= 1e-8:
+        if ext_ok and deg_off:
             return 'matches-textbook-iteration'
+        if ext_ok and deg_ok:
+            return 'matches-both-iterations'
         return 'matches-neither'
     except Exception:
         return 'unclassified'
